@@ -88,6 +88,22 @@ def gen(tier, rng):
                 if tier == "quick" and bi < 256 and (bi + status // 100 + len(kind)) % 3 and body not in (b"\xef", b"\xfe", b"\xff", b"{", b"[", b'"', b"\x00"):
                     continue
                 out.append((http_line(variants[i % 2], kind, False, status, CTS[i % 2], body), "tiny-body"))
+    # large replies (around and beyond 64 KiB, 256 KiB): classified like small ones, whatever makes them large
+    for kind in KINDS:
+        fam = FAM[kind] or "token"
+        m, known = D.family_doc(fam, rng, False)
+        for size in (65000, 65536, 65537, 70000) if tier == "quick" else (65000, 65535, 65536, 65537, 70000, 131073, 262145):
+            for shape in ("pad-string", "pad-array", "pad-spaces"):
+                if tier == "quick" and (size + len(shape) + len(kind)) % 2:
+                    continue
+                if shape == "pad-string":
+                    body = D.render(D.obj(m + [("padding", "x" * size)]), rng, plain=True)
+                elif shape == "pad-array":
+                    body = D.render(D.obj(m + [("padding", ["y"] * (size // 4))]), rng, plain=True)
+                else:
+                    body = D.render(D.obj(m), rng, plain=True) + " " * size
+                i += 1
+                out.append((http_line(variants[i % 2], kind, False, 200 if i % 3 else 400, CTS[1], body), "large-body"))
     # long Content-Type values (every length 1..200 around typical truncation points), ASCII, two-byte and
     # three-byte characters and opaque bytes, JSON and non-JSON media types: an error value, never a panic
     for kind in KINDS:
